@@ -78,11 +78,11 @@ PROPS = {
         explanation='conservation clauses (exact-when-tight, conserves-non-blank) on every reader, composed through read_tex, '
                     'tex.read and TexSoup'),
     'C01': dict(
+        bounded=['parse.py', 'tree.py'],
         select=lambda c: c.qual.split('.')[0] in ('reader', 'tex', '__init__') or
         c.qual in ('data.TexExpr.__init__', 'data.TexExpr.append', 'data.TexCmd.__str__', 'data.TexEnv.__str__',
                    'data.TexArgs.__str__'),
         level='other',
-        bounded=['parse.py'],
         lemmas=['L01: TexSoup(S) returns and tight(root) ==> str(soup) == S (postcondition `exact` of TexSoup/read)'],
         assumptions=['"parsing succeeds and the tree is tight on every well-formed document with adjacent arguments" quantifies over '
                      'a grammar; it is checked bounded (construct-level enumeration), not proved',
@@ -105,4 +105,58 @@ PROPS = {
                      'arguments adjacent to the name; exactness under tight()) are deductive, the property itself is bounded'],
         explanation='bounded: all strings of <= 3/4 atoms over a 33-atom construct alphabet and <= 4/5 over 13 atoms, prefixes and '
                     'deletions of sample documents, random longer strings'),
+    'C02': dict(
+        select=lambda c: c.qual.split('.')[0] in ('reader',) or c.qual.startswith('tokens.tokenize_command_name') or
+        c.qual in ('data.TexExpr.__init__', 'data.TexExpr.append'),
+        level='other', bounded=['tree.py'],
+        lemmas=['M2 (DESIGN 9): the bracketing clauses determine the tree uniquely from the token stream (not mechanised)'],
+        assumptions=['equality with the generating syntax tree quantifies over a grammar: bounded (generated documents, depth 3/4)',
+                     'proved clauses: kind by opening token (read_arg#kind), text leaves are single tokens '
+                     '(read_expr#text-leaf-is-the-token), \\item owns up to the next \\item/\\end/closing brace '
+                     '(read_item#owns-up-to-next-item-or-end), name token (read_command#name-token), command names are maximal '
+                     'runs of letters and * (tokenize_command_name)'],
+        explanation='bracketing clauses on the readers for all inputs; tree equality on generated documents'),
+    'C09': dict(
+        select=lambda c: c.qual in ('tokens.tokenize_spacers', 'tokens.tokenize_symbols', 'reader.read_spacer', 'reader.read_arg',
+                                    'reader.read_arg_optional', 'reader.read_arg_required', 'reader.read_args', 'reader.read_expr'),
+        level='other', bounded=['constructs.py'],
+        assumptions=['the composed statement over command/separator/group sequences is checked bounded; the proved clauses are: '
+                     'a MergedSpacer token is blanks with at most one line end and is not followed by text '
+                     '(tokenize_spacers), read_spacer takes exactly one such token, the argument loops are maximal and roll a '
+                     'rejected spacer back, read_arg closes only on its own delimiter kind'],
+        explanation='spacer token shape, argument loops (maximality, rollback), group closing rule'),
+    'C10': dict(
+        select=lambda c: c.qual in ('tokens.tokenize_line_comment', 'tokens.tokenize_escaped_symbols', 'tokens.next_token',
+                                    'tokens.tokenize', 'reader.read_expr'),
+        level='other', bounded=['constructs.py'],
+        assumptions=['payload independence of the surrounding tree is a two-run property: checked bounded (payloads over a hostile '
+                     'alphabet in every context); proved: the comment token is % plus everything up to the next line end, '
+                     'escaped symbols are claimed first, a Comment token becomes a text leaf'],
+        explanation='comment tokenizer clauses and leaf dispatch; payload substitution bounded'),
+    'C11': dict(
+        select=lambda c: c.qual in ('reader.read_skip_env', 'reader.read_expr', 'utils.Buffer.forward_until',
+                                    'utils.Buffer.startswith', 'reader.read_tex'),
+        level='other', bounded=['constructs.py'],
+        assumptions=['coincidence of the first \\end{name} in the source with the first token boundary whose remaining text '
+                     'starts with it is checked bounded', 'open findings D5 (fixed forward(5)) and D19 (\\item drops skip_envs)'],
+        explanation='read_skip_env: the body is one raw text equal to the skipped tokens, no reader is invoked on it'),
+    'C12': dict(
+        select=lambda c: c.qual in ('tokens.tokenize_math_sym_switch', 'tokens.tokenize_math_asym_switch',
+                                    'tokens.tokenize_escaped_symbols', 'tokens.tokenize_punctuation_command_name',
+                                    'reader.read_math_env', 'reader.read_expr', 'reader.read_args', 'reader.read_command',
+                                    'data.TexEnv.__str__'),
+        level='other', bounded=['constructs.py'],
+        assumptions=['composition over adjacent regions and contexts is bounded'],
+        explanation='math tokenizers, read_math_env (closed by its own delimiter, body exact), zero-argument operators'),
+    'C13': dict(
+        select=lambda c: c.qual.startswith('utils.Token.') or c.qual.startswith('utils.CharToLineOffset') or
+        c.qual.split('.')[0] in ('tokens', 'category') or c.qual in ('reader.read_expr', 'reader.read_arg', 'utils.Buffer.__next__',
+                                                                    'utils.Buffer.forward_until', 'data.TexExpr.__init__'),
+        level='other', bounded=['c13.py'],
+        assumptions=['Token.strip/lstrip/rstrip offsets and search_regex (external re module) are checked bounded only',
+                     'bisect.bisect_left is used under its documented contract'],
+        lemmas=['positions: categorize gives character k position k; every tokenizer gives its token the offset of its first '
+                'character; read_expr/read_arg give a node the position of its first token; CharToLineOffset.__call__ returns '
+                'the number of line breaks before the offset and the distance to the last one'],
+        explanation='position clauses through categorize, tokenizers, readers; line/column map verified against nlpos'),
 }
